@@ -19,7 +19,18 @@ SHARDS = 16
 
 
 def design_checks(tier):
-    return [dict(module="MarkMC", cfg="MarkMC.cfg", workers=8, timeout=600)]
+    # MarkWriterMC: the writer model the trace acceptor compares compiled fonts with (MarkWriter.tla), explored over every
+    # anchor assignment; the two must-fail configurations show that the signature of F-C06-1 is needed and that the writer's
+    # documented "MC_top is applied late so that it wins" does not always hold with groupMarkClasses
+    strict = [dict(module="MarkWriterMC", cfg="MarkWriterMC_strict.cfg", workers=2, timeout=120, expect_violation="C06_Model_Strict"),
+              dict(module="MarkWriterMC", cfg="MarkWriterMC_top.cfg", workers=4, timeout=300, expect_violation="TopWins")]
+    if tier == "quick":
+        return [dict(module="MarkMC", cfg="MarkMC.cfg", workers=8, timeout=600),
+                dict(module="MarkWriterMC", cfg="MarkWriterMC_quick.cfg", workers=8, timeout=600)] + strict
+    return [dict(module="MarkMC", cfg="MarkMC.cfg", workers=8, timeout=600),
+            dict(module="MarkWriterMC", cfg="MarkWriterMC_quick.cfg", workers=8, timeout=600),
+            dict(module="MarkWriterMC", cfg="MarkWriterMC.cfg", workers=16, timeout=1800),
+            dict(module="MarkWriterMC", cfg="MarkWriterMC_lig.cfg", workers=16, timeout=1800)] + strict
 
 
 def cases(tier, seed):
